@@ -17,24 +17,26 @@ func tx(signer, fee string, msgs ...M) M {
 func txg(signer, fee string, gas int, msgs ...M) M {
 	return M{"e": "Tx", "signer": signer, "fee": fee, "gas": gas, "msgs": msgs}
 }
-func blk() M                              { return M{"e": "Block", "dt": 1} }
-func chosen(k, req int) M                 { return M{"role": "chosen", "k": k, "req": req} }
-func unchosen(req int) M                  { return M{"role": "unchosen", "req": req} }
-func report(val interface{}, req int) M   { return M{"k": "report", "val": val, "req": req, "shape": "ok"} }
+func blk() M              { return M{"e": "Block", "dt": 1} }
+func chosen(k, req int) M { return M{"role": "chosen", "k": k, "req": req} }
+func unchosen(req int) M  { return M{"role": "unchosen", "req": req} }
+func report(val interface{}, req int) M {
+	return M{"k": "report", "val": val, "req": req, "shape": "ok"}
+}
 func reportS(val interface{}, req int, shape string) M {
 	return M{"k": "report", "val": val, "req": req, "shape": shape}
 }
-func price(val, shape string) M           { return M{"k": "price", "val": val, "shape": shape} }
-func sig(mem interface{}, id int) M       { return M{"k": "sig", "mem": mem, "sig": id, "shape": "ok"} }
-func sigBad(mem interface{}, id int) M    { return M{"k": "sig", "mem": mem, "sig": id, "shape": "bad"} }
-func assigned(k, id int) M                { return M{"role": "assigned", "k": k, "sig": id} }
-func unassigned(id int) M                 { return M{"role": "unassigned", "sig": id} }
-func de(mem, shape string) M              { return M{"k": "de", "mem": mem, "shape": shape} }
-func dkg1(mem, shape string) M            { return M{"k": "dkg1", "mem": mem, "shape": shape} }
-func exec(g string, inner ...M) M         { return M{"k": "exec", "g": g, "inner": inner} }
-func send(from interface{}) M             { return M{"k": "send", "from": from} }
-func request(ask, min int) M              { return M{"k": "request", "ask": ask, "min": min, "from": "rq"} }
-func reqsig() M                           { return M{"k": "reqsig", "from": "rq"} }
+func price(val, shape string) M        { return M{"k": "price", "val": val, "shape": shape} }
+func sig(mem interface{}, id int) M    { return M{"k": "sig", "mem": mem, "sig": id, "shape": "ok"} }
+func sigBad(mem interface{}, id int) M { return M{"k": "sig", "mem": mem, "sig": id, "shape": "bad"} }
+func assigned(k, id int) M             { return M{"role": "assigned", "k": k, "sig": id} }
+func unassigned(id int) M              { return M{"role": "unassigned", "sig": id} }
+func de(mem, shape string) M           { return M{"k": "de", "mem": mem, "shape": shape} }
+func dkg1(mem, shape string) M         { return M{"k": "dkg1", "mem": mem, "shape": shape} }
+func exec(g string, inner ...M) M      { return M{"k": "exec", "g": g, "inner": inner} }
+func send(from interface{}) M          { return M{"k": "send", "from": from} }
+func request(ask, min int) M           { return M{"k": "request", "ask": ask, "min": min, "from": "rq"} }
+func reqsig() M                        { return M{"k": "reqsig", "from": "rq"} }
 func grant(from interface{}, to, kind string, ttl int) M {
 	return M{"k": "grant", "from": from, "to": to, "for": kind, "ttl": ttl}
 }
@@ -197,12 +199,12 @@ func Fixed() []tf.Script {
 		txg("self", "above", 200001, send("x1")),
 		txg("self", "below", 200000, send("v2")),
 		txg("self", "at", 200000, send("v2")),
-		tx("self", "at", send("p1")),                        // cannot afford the fee
-		tx("p1", "at", exec("p1", report("v1", 1))),         // exempt: not charged at CheckTx
+		tx("self", "at", send("p1")),                // cannot afford the fee
+		tx("p1", "at", exec("p1", report("v1", 1))), // exempt: not charged at CheckTx
 		tx("p1", "zero", exec("p1", report("v1", 1))),
-		tx("p1", "zero", exec("p1", report("v2", 1))),       // no grant
-		tx("x1", "zero", report("v2", 1)),                   // exempt but signed by a stranger
-		tx("x1", "zero", send("v2")),                        // fee decision comes first
+		tx("p1", "zero", exec("p1", report("v2", 1))), // no grant
+		tx("x1", "zero", report("v2", 1)),             // exempt but signed by a stranger
+		tx("x1", "zero", send("v2")),                  // fee decision comes first
 		tx("x1", "at", send("v2")),
 		blk(),
 		tx("self", "zero", report("v3", 1)),
@@ -244,6 +246,35 @@ func Fixed() []tf.Script {
 		tx("self", "zero", price("v1", "empty")), // still free during the cooldown of the real price
 		tx("self", "zero", price("v1", "ok")),
 		tx("self", "zero", reportS(chosen(1, 1), 1, "big")),
+		blk(),
+	))
+	return out
+}
+
+// MultiDenom is the opt-in catalogue (vdrive feefree -mode multidenom, check id X02D): the node's own
+// min-gas-prices name a denom that the global fee does not list.
+func MultiDenom() []tf.Script {
+	tx2 := func(signer, fee, fee2 string, msgs ...M) M {
+		t := tx(signer, fee, msgs...)
+		t["fee2"] = fee2
+		return t
+	}
+	with := func(c M, q int) M { c["localq"] = q; return c }
+	var out []tf.Script
+	out = append(out, script(with(consts(25, 0), 10),
+		func() M { t := env("rq", request(2, 1)); t["fee2"] = "at"; return t }(), blk(),
+		tx2("self", "zero", "zero", report(chosen(1, 1), 1)), // exempt either way
+		tx2("self", "at", "zero", send("x1")),                // pays the full global fee
+		tx2("self", "zero", "at", send("x1")),                // pays nothing in the global fee's denom
+		tx2("self", "zero", "below", send("x1")),
+		tx2("self", "zero", "zero", send("x1")),
+		blk(),
+	))
+	out = append(out, script(with(consts(25, 50), 10),
+		tx2("self", "at", "zero", send("x1")),
+		tx2("self", "below", "zero", send("x1")),
+		tx2("self", "zero", "at", send("x1")),
+		tx2("self", "below", "below", send("x1")),
 		blk(),
 	))
 	return out
